@@ -36,7 +36,11 @@ func (p *Path) arbitrary(t types.Type, name string, depth int, site ssa.Instruct
 	if depth > 6 {
 		return p.zero(t)
 	}
-	switch typeFullName(t) {
+	tfn := typeFullName(t)
+	if tfn != "time.Time" && p.E.isTimeLike(t) {
+		tfn = "time.Time"
+	}
+	switch tfn {
 	case "time.Time":
 		tok := p.freshNamed("i_"+name, smt.SInt)
 		p.inputs = append(p.inputs, &Input{Name: name, Kind: "int", T: tok})
@@ -164,6 +168,11 @@ func (p *Path) deepEq(a, b Value, t types.Type, site ssa.Instruction) *smt.Term 
 		return smt.True
 	}
 	if t != nil {
+		if ao, ok := a.(OpaqueV); ok {
+			if bo, ok := b.(OpaqueV); ok {
+				return smt.Eq(ao.Tok, bo.Tok)
+			}
+		}
 		switch typeFullName(t) {
 		case "time.Time":
 			return smt.Eq(a.(OpaqueV).Tok, b.(OpaqueV).Tok)
